@@ -633,3 +633,16 @@ func vBreakLineOrphansWidows() (int, []string) {
 //@   ensures[flow-root] box.Style.GetDisplay().Has("flow-root") ==> result
 //@   ensures[column] box.IsColumn ==> result
 //@   shows[plain-block] result ==> callresult(IsFloated, 1) || callresult(IsAbsolutelyPositioned, 1) || box.IsColumn || (bo.BlockContainerT.IsInstance(box_) && !bo.BlockT.IsInstance(box_)) || (bo.BlockT.IsInstance(box_) && box.Style.GetOverflow() != "visible") || box.Style.GetDisplay().Has("flow-root")
+
+// CSS Text 3 §5.1: an inline box can be broken inside exactly when some descendant text can (with a wrapping
+// white-space): the answer for a parent box is yes as soon as ONE child says yes, and no otherwise - a child
+// that cannot tell (a text too short to hold a break) does not end the scan; atomic inlines never break.
+//@ func canBreakInside
+//@   props C11
+//@   modifies anything
+//@   unclaimed call-*-pre* "box and context accessors"
+//@   return 1 ensures[atomic] result == pr.False
+//@   return 3 ensures[some-child-breaks] result == pr.True && callresult(canBreakInside, 1) == pr.True
+//@   return 4 ensures[no-child-breaks] result == pr.False
+//@   return 5 ensures[no-wrapping] result == pr.False
+//@   loop 1 step[scan-continues-past-a-child-that-does-not-break] callresult(canBreakInside, 1) != pr.True
